@@ -237,3 +237,28 @@ M('depths_x_for_y', ['C09'], 'phylib/io/model.py',
 M('channels_argmax_abs', ['C09'], 'phylib/io/model.py',
   "            template_peak_channels = np.argmax(tmp.max(axis=1) - tmp.min(axis=1), axis=1)\n        else:",
   "            template_peak_channels = np.argmax(np.abs(tmp).max(axis=1), axis=1)\n        else:")
+# ---- C11 / C12 --------------------------------------------------------------------------------
+M('merge_unstable_sort', ['C11'], 'phylib/io/merge.py',
+  "    spike_order = np.argsort(spike_times_concat, kind='stable')", "    spike_order = np.argsort(-spike_times_concat.astype(np.int64), kind='stable')[::-1]")
+M('merge_amplitudes_not_reordered', ['C11'], 'phylib/io/merge.py',
+  "    return spike_array_concat[spike_order]", "    return spike_array_concat[spike_order] if spike_array_concat.dtype.kind != 'f' else spike_array_concat[np.sort(spike_order)]")
+M('merge_offset_from_count', ['C11'], 'phylib/io/merge.py',
+  "            n_clu = int(np.max(sc)) + 1\n", "            n_clu = len(np.unique(sc))\n")
+M('merge_cluster_probes_shifted', ['C11'], 'phylib/io/merge.py',
+  "            cluster_probes_l.append(i * np.ones(n_clu, dtype=np.int32))", "            cluster_probes_l.append(max(0, i - 1) * np.ones(n_clu, dtype=np.int32))")
+M('merge_metadata_not_renumbered', ['C11'], 'phylib/io/merge.py',
+  "                    metadata[k + offset] = v", "                    metadata[k + (offset if fn != 'cluster_ContamPct.tsv' else 0)] = v")
+M('merge_inputs_modified', ['C11'], 'phylib/io/merge.py',
+  "        self._save('spike_times.npy', spike_times)\n", "        self._save('spike_times.npy', spike_times)\n        np.save(self.subdirs[-1] / 'spike_order.npy', self.spike_order)\n")
+M('merge_template_offset_prev_only', ['C12'], 'phylib/io/merge.py',
+  "                j0 = sum(tmp.shape[2] for tmp in templates_l[:i])", "                j0 = sum(tmp.shape[2] for tmp in templates_l[max(0, i - 2):i])")
+M('merge_positions_no_offset', ['C12'], 'phylib/io/merge.py',
+  "            x_offset = 2. * array[:, 0].max() - array[:, 0].min()", "            x_offset = array[:, 0].max() - array[:, 0].min()")
+M('merge_channel_probe_label', ['C12'], 'phylib/io/merge.py',
+  "            channel_probes.append(array * 0 + ind)", "            channel_probes.append(array * 0 + min(ind, 2))")
+M('merge_tfi_channel_offsets', ['C12'], 'phylib/io/merge.py',
+  "            ('template_feature_ind.npy', self.template_offsets),", "            ('template_feature_ind.npy', self.cluster_offsets),")
+M('merge_params_channels_max', ['C12'], 'phylib/io/merge.py',
+  "        n_channels_dat = sum(params['n_channels_dat'] for params in params_l)", "        n_channels_dat = sum(params['n_channels_dat'] for params in params_l[:3])")
+M('merge_similar_not_blockdiag', ['C12'], 'phylib/io/merge.py',
+  "                concat = block_diag(*_load_multiple_files(fn, self.subdirs))", "                concat = block_diag(*_load_multiple_files(fn, self.subdirs)[::-1 if fn.startswith('similar') else 1])")
